@@ -9,6 +9,7 @@
   `fixed = false` is the function at the pinned commit (finding F17).
 -/
 import ScionTime.Model.CsptpCodec
+import ScionTime.Model.CsptpConv
 namespace ScionTime.CsptpClient
 open ScionTime.Wire ScionTime.Csptp
 
@@ -50,5 +51,90 @@ def onDatagram (fixed : Bool) (buf : List Nat) (n : Nat) (fromEvent fromGeneral 
             t.organizationSubType ≠ orgSubTypeResponse then .retry "tlv-kind" else
         if n - minMessageLength ≠ encodedTLVLength t.flagField then .retry "tlv-length" else .acceptFollowUp
     else .retry "type"
+
+/-! ### after the loop: the evaluation of a complete Sync / Follow_Up pair
+
+`MeasureClockOffset` from `t0 := cTxTime0` to `offset = clockOffset`: which timestamps and
+corrections the client feeds to `csptp.C2SDelay / S2CDelay / ClockOffset / MeanPathDelay`
+(Model/CsptpConv.lean), and how it treats the announced UTC offset.  `cTxTime0` (kernel TX
+timestamp of the client's Sync) and `cRxTime0` (kernel RX timestamp of the server's Sync) are
+inputs; times are `Int` nanoseconds, durations `Int64` (wrapping), as in Model/CsptpConv.lean. -/
+
+/-- `csptp.FlagCurrentUTCOffsetValid = 1 << 2` -/
+def flagCurrentUTCOffsetValid : Nat := 4
+
+/-- a decoded `csptp.Timestamp` (seconds as the value of the six bytes) as the argument type of
+    `CsptpConv.timeFromTimestamp` -/
+def convTimestamp (ts : Csptp.Timestamp) : CsptpConv.Timestamp :=
+  { seconds := CsptpConv.secBytes ts.seconds, ns := ts.nanoseconds }
+
+structure Evaluation where
+  timestamp : Int          -- returned `timestamp` (= cRxTime0)
+  clockOffset : Int64      -- returned `offset`
+  c2sDelay : Int64         -- logged "C2S delay"
+  s2cDelay : Int64         -- logged "S2C delay"
+  meanPathDelay : Int64    -- logged "mean path delay"
+  utcCorr : Int64
+deriving DecidableEq, Repr
+
+/-- `utcCorr`: `int64(resptlv.UTCOffset) * time.Second.Nanoseconds()` if the Follow_Up's flag field
+    has `FlagCurrentUTCOffsetValid`, else 0 -/
+def utcCorrection (flagField : Nat) (utcOffset : Int) : Int64 :=
+  if flagField &&& flagCurrentUTCOffsetValid = flagCurrentUTCOffsetValid
+  then Int64.ofInt (utcOffset * 1000000000) else 0
+
+/-- `t3Corr`: the correction fields of both response messages, converted separately, added -/
+def t3Correction (respmsg0 respmsg1 : Message) : Int64 :=
+  CsptpConv.durationFromTimeInterval (Int64.ofInt respmsg0.correctionField) +
+    CsptpConv.durationFromTimeInterval (Int64.ofInt respmsg1.correctionField)
+
+/-- the tail of `MeasureClockOffset` -/
+def evaluate (cTxTime0 cRxTime0 : Int) (respmsg0 respmsg1 : Message) (resptlv : ResponseTLV) : Evaluation :=
+  let t0 := cTxTime0
+  let t1 := CsptpConv.timeFromTimestamp (convTimestamp resptlv.requestIngressTimestamp)
+  let t1Corr := CsptpConv.durationFromTimeInterval (Int64.ofInt resptlv.requestCorrectionField)
+  let t2 := CsptpConv.timeFromTimestamp (convTimestamp respmsg1.timestamp)
+  let t3 := cRxTime0
+  let t3Corr := t3Correction respmsg0 respmsg1
+  let utcCorr := utcCorrection respmsg1.flagField resptlv.utcOffset
+  { timestamp := cRxTime0
+    clockOffset := CsptpConv.clockOffset t0 t1 t2 t3 t1Corr t3Corr
+    c2sDelay := CsptpConv.c2sDelay t0 t1 t1Corr utcCorr
+    s2cDelay := CsptpConv.s2cDelay t2 t3 t3Corr utcCorr
+    meanPathDelay := CsptpConv.meanPathDelay t0 t1 t2 t3 t1Corr t3Corr
+    utcCorr := utcCorr }
+
+/-- the Go statements `evaluate` transcribes (from `t0 := cTxTime0` to the end of the function, log
+    calls left out, whitespace normalised); pinned to the source by Props/C18Client.lean -/
+def evaluateSource : List String :=
+  ["t0 := cTxTime0",
+   "t1 := csptp.TimeFromTimestamp(resptlv.RequestIngressTimestamp)",
+   "t1Corr := csptp.DurationFromTimeInterval(resptlv.RequestCorrectionField)",
+   "t2 := csptp.TimeFromTimestamp(respmsg1.Timestamp)",
+   "t3 := cRxTime0",
+   "t3Corr := csptp.DurationFromTimeInterval(respmsg0.CorrectionField) + csptp.DurationFromTimeInterval(respmsg1.CorrectionField)",
+   "var utcCorr time.Duration",
+   "if respmsg1.FlagField&csptp.FlagCurrentUTCOffsetValid == csptp.FlagCurrentUTCOffsetValid { utcCorr = time.Duration(int64(resptlv.UTCOffset) * time.Second.Nanoseconds()) }",
+   "c2sDelay := csptp.C2SDelay(t0, t1, t1Corr, utcCorr)",
+   "s2cDelay := csptp.S2CDelay(t2, t3, t3Corr, utcCorr)",
+   "clockOffset := csptp.ClockOffset(t0, t1, t2, t3, t1Corr, t3Corr)",
+   "meanPathDelay := csptp.MeanPathDelay(t0, t1, t2, t3, t1Corr, t3Corr)",
+   "timestamp = cRxTime0",
+   "offset = clockOffset",
+   "c.sequenceID++",
+   "return"]
+
+/-- One complete exchange as recorded on the wire: the server's Sync (from port 319) and
+    Follow_Up (from port 320) datagrams, each put through the loop body (`onDatagram`, repaired
+    function), then `evaluate`.  `Except.error`: the verdict that kept the pair incomplete. -/
+def evaluateDatagrams (cTxTime0 cRxTime0 : Int) (sync fu : List Nat) (seq : Nat) : Except String Evaluation :=
+  match onDatagram true sync sync.length true false seq, onDatagram true fu fu.length false true seq with
+  | .acceptSync, .acceptFollowUp =>
+    match decodeMessage (sync.take minMessageLength), decodeMessage (fu.take minMessageLength),
+          decodeResponseTLV (fu.drop minMessageLength) with
+    | .ok m0, .ok m1, .ok tlv => .ok (evaluate cTxTime0 cRxTime0 m0 m1 tlv)
+    | _, _, _ => .error "decode"
+  | .acceptSync, v => .error s!"follow-up:{repr v}"
+  | v, _ => .error s!"sync:{repr v}"
 
 end ScionTime.CsptpClient
